@@ -167,9 +167,14 @@ def r02_2(prog, out):
     deadline = A.cell("PulledMessage", "deadline")
     found = 0
     for b in prog.facts.lib_bodies():
-        if b.impl_self != tracker:
+        rootb = prog.facts.body(b.root) if b.root else None
+        if b.impl_self != tracker and not (rootb is not None and rootb.impl_self == tracker):
             continue
-        ws = [e for e in prog.effects(b.id) if e.kind == "write" and e.touches(deadline)]
+        # judged in the body that overwrites the deadline itself (directly or through the delivery's own setter), not in every
+        # caller up the chain (`modify` -> closure -> `apply` -> `reschedule`)
+        pm_ty = A.ty("PulledMessage")
+        ws = [e for e in prog.effects(b.id) if e.kind == "write" and e.touches(deadline)
+              and all((prog.facts.body(cb).impl_self if prog.facts.body(cb) is not None else None) == pm_ty for cb, _ in e.chain)]
         if not ws:
             continue
         found += 1
